@@ -90,6 +90,7 @@ type ChanObj struct {
 	closed bool
 	cap    int
 	sends  int
+	noRecv bool // no goroutine is (or will be) receiving: a send only completes into free buffer space
 }
 
 type IterV struct {
